@@ -68,6 +68,7 @@ type wdEvent struct {
 }
 
 type netMsg struct {
+	Call     int64 // history stamp of the invocation
 	Chain    int // 1 or 2
 	Msgs     []sdk.Msg
 	Kind     string
@@ -77,6 +78,7 @@ type netMsg struct {
 }
 
 type memTx struct {
+	Call  int64
 	Msgs  []sdk.Msg
 	Bytes []byte
 	Kind  string
@@ -119,6 +121,8 @@ type twoChain struct {
 	initialL1 map[string]*big.Int // total L1 supply per denom
 	draining bool
 	finPeriod time.Duration
+	evSeq    int64    // global event sequence number (history stamps)
+	hist     []histOp // client-visible history of relay and claim transactions
 }
 
 func (tc *twoChain) fail(owners []string, inv, key, format string, a ...interface{}) *core.Violation {
@@ -185,7 +189,7 @@ func (tc *twoChain) mk(chain int, msgs []sdk.Msg, kind, desc string) memTx {
 // send hands a message to the simulated network.
 func (tc *twoChain) send(chain int, from string, msgs []sdk.Msg, kind, desc string) {
 	r := tc.r
-	m := netMsg{Chain: chain, Msgs: msgs, Kind: kind, Desc: desc, From: from, At: tc.simNow}
+	m := netMsg{Chain: chain, Msgs: msgs, Kind: kind, Desc: desc, From: from, At: tc.simNow, Call: tc.histInvoke(msgs)}
 	if tc.p.Faults && !tc.draining {
 		switch r.Weighted([]int{12, 2, 2, 2}) {
 		case 1:
@@ -195,6 +199,7 @@ func (tc *twoChain) send(chain int, from string, msgs []sdk.Msg, kind, desc stri
 		case 2:
 			r.Fault("net.duplicate")
 			d := m
+			d.Call = tc.histInvoke(msgs) // a duplicate is an invocation of its own
 			d.At = tc.simNow.Add(time.Duration(r.Intn(20)) * time.Second)
 			tc.inflight = append(tc.inflight, d)
 		case 3:
@@ -220,6 +225,7 @@ func (tc *twoChain) deliver(chain int) {
 			continue
 		}
 		t := tc.mk(chain, m.Msgs, m.Kind, m.Desc)
+		t.Call = m.Call
 		var code uint32
 		var log string
 		if chain == 1 {
@@ -308,6 +314,9 @@ func (tc *twoChain) blockL1(txs []memTx, dt time.Duration, crash string) *core.V
 		tc.mem1 = nil // the mempool does not survive a crash
 	}
 	tc.bookThirdParty(txs, w.lastRes)
+	for i, t := range txs {
+		tc.histReturn(t.Call, t.Msgs, w.lastRes.TxResults[i].Code == 0, nil)
+	}
 	// parse events the way an executor does
 	for i, tr := range w.lastRes.TxResults {
 		if tr.Code != 0 {
@@ -388,6 +397,13 @@ func (tc *twoChain) blockL2(txs []memTx, dt time.Duration, crash string) *core.V
 	}
 	if crash != "" {
 		tc.mem2 = nil
+	}
+	for i, t := range txs {
+		var resps []interface{}
+		for _, rm := range node.DecodeResponses(w.enc, w.lastRes.TxResults[i].Data) {
+			resps = append(resps, rm)
+		}
+		tc.histReturn(t.Call, t.Msgs, w.lastRes.TxResults[i].Code == 0, resps)
 	}
 	for _, tr := range w.lastRes.TxResults {
 		if tr.Code != 0 {
@@ -1091,6 +1107,11 @@ func runTwoChain(p *tcProfile) func(r *core.Run) *core.Violation {
 		}
 		if v := tc.drain(); v != nil {
 			return v
+		}
+		if !p.Admin && !p.Plans {
+			if v := tc.checkHistory(); v != nil {
+				return v
+			}
 		}
 		r.Stat("deposits", len(tc.deps))
 		r.Stat("withdrawals", len(tc.wds))
